@@ -61,5 +61,5 @@ def build(nodefam):
                                                   ForAll([j], Implies(in_range(j, res.n), And(res.a[j] == s.a[j], s.a[j] == e.a[j]))))),
                 Clause("is-the-longest", Implies(res.n < mn, s.a[res.n] != e.a[res.n]))]
     fam.add(Spec(fam, fam.attr("__calc_common"), "static", [("start", "aseq"), ("end", "aseq")], cc_req, [
-        Outcome("return", "return", cc_post, res="aseq", mods=())], props=P))
+        Outcome("return", "return", cc_post, res="aseq", mods=(), tag={"py": "tuple"})], props=P))
     return fam
